@@ -11,12 +11,16 @@
                         cf. `V.C09.Ids`: all events of one resolution have one room version);
   * `Input.oneCreate` — the supplied events contain at most one create event (they belong to one room): the v12
                         creator bonus in the power ordering reads "the" create event with a first-match search.
-  Proof files: VProofs/StateRes{Basic,Sort,State,Group,Split,Closure,KahnSim,KahnSim2,KahnTopo,MapEq,Stages,WF,Invariant}.lean.
+  Proof files: VProofs/StateRes{Basic,Sort,State,Group,Split,Closure,KahnSim,KahnSim2,KahnTopo,KahnTopo2,MapEq,Stages,WF,Flow,
+  Invariant,V1,V1b..V1g,Old}.lean and VProofs/AuthLookup.lean (the auth verdict depends on the provider only through lookups).
+  Sections: 1 well-formedness (v2/v2.1) · 3 order independence (v2/v2.1) · 2 orderings (Kahn, mainline, public entry points,
+  LineariseStateResponse) · 4 version 1 · entry point ResolveConflictsNew · 5 deprecated entry points.
 -/
 import VModel.StateRes
 import VProofs.StateResInvariant
 import VProofs.StateResKahnTopo2
 import VProofs.StateResV1g
+import VProofs.StateResOld
 namespace V.C11
 open V V.StateRes List
 
@@ -77,21 +81,16 @@ theorem result_eq_finalState (algo : Nat) (sets : List (List Event)) (auth : Lis
     (resolveV2New algo sets auth rejected).result = (finalState algo sets auth rejected).map (·.2.eventID) :=
   resolveV2New_result algo sets auth rejected
 
-/-- **At most one event per (type, state_key).**  The resolved state has pairwise distinct slots, every entry sits in the
-    slot of its event, hence no two resolved events share (type, state_key). -/
-theorem result_unique_keys (algo : Nat) (sets : List (List Event)) (auth : List Event) (rejected : List ID) :
-    let s := finalState algo sets auth rejected
+/-- a well-formed partial state: distinct slots, every entry in the slot of its event, no two events share (type, state_key) -/
+theorem stateWF_facts {s : State} (h : StateWF s) :
     KeysNodup s ∧ (∀ x ∈ s, x.2.type = x.1.1 ∧ x.2.stateKey = some x.1.2) ∧
     (s.map (·.2)).Pairwise (fun a b => ¬ (a.type = b.type ∧ a.stateKey = b.stateKey)) := by
-  intro s
-  have h := finalState_wf algo sets auth rejected
   refine ⟨h.nodup, fun x hx => ?_, ?_⟩
   · have := hasKey_iff.mp (h.slot x hx); exact ⟨this.2, this.1⟩
   · have hn := h.nodup
     rw [List.nodup_iff_pairwise_ne, List.pairwise_map] at hn
     rw [List.pairwise_map]
-    have : (finalState algo sets auth rejected).Pairwise
-        (fun a b => a ∈ finalState algo sets auth rejected ∧ b ∈ finalState algo sets auth rejected ∧ a.1 ≠ b.1) := by
+    have : s.Pairwise (fun a b => a ∈ s ∧ b ∈ s ∧ a.1 ≠ b.1) := by
       rw [List.pairwise_iff_forall_sublist] at hn ⊢
       intro a b hab
       exact ⟨hab.subset List.mem_cons_self, hab.subset (List.mem_cons_of_mem _ List.mem_cons_self), hn hab⟩
@@ -102,6 +101,14 @@ theorem result_unique_keys (algo : Nat) (sets : List (List Event)) (auth : List 
     have kb := hasKey_iff.mp (h.slot b hb)
     refine Prod.ext (ka.2.symm.trans (h1.trans kb.2)) ?_
     have := ka.1.symm.trans (h2.trans kb.1); simpa using this
+
+/-- **At most one event per (type, state_key).**  The resolved state has pairwise distinct slots, every entry sits in the
+    slot of its event, hence no two resolved events share (type, state_key). -/
+theorem result_unique_keys (algo : Nat) (sets : List (List Event)) (auth : List Event) (rejected : List ID) :
+    let s := finalState algo sets auth rejected
+    KeysNodup s ∧ (∀ x ∈ s, x.2.type = x.1.1 ∧ x.2.stateKey = some x.1.2) ∧
+    (s.map (·.2)).Pairwise (fun a b => ¬ (a.type = b.type ∧ a.stateKey = b.stateKey)) :=
+  stateWF_facts (finalState_wf algo sets auth rejected)
 
 /-- **Only supplied events.** -/
 theorem result_subset_inputs (algo : Nat) (sets : List (List Event)) (auth : List Event) (rejected : List ID) :
@@ -118,6 +125,45 @@ theorem unconflicted_iff (sets : List (List Event)) (e : Event) :
       e ∈ distinctStateEvents sets ∧ ((distinctStateEvents sets).filter (hasKey (keyOf e))).length = 1 ∧
       countID sets e.eventID = sets.length := by
   rw [mem_split_unconflicted]; simp [dse]
+
+/-- a nodup list all of whose members equal `e`, and which contains `e`, has length 1 -/
+private theorem length_one_of_all_eq {l : List Event} (hn : l.Nodup) {e : Event} (he : e ∈ l) (hall : ∀ x ∈ l, x = e) :
+    l.length = 1 := by
+  cases l with
+  | nil => cases he
+  | cons a as =>
+    cases as with
+    | nil => rfl
+    | cons b bs =>
+      exfalso
+      have ha := hall a List.mem_cons_self
+      have hb := hall b (List.mem_cons_of_mem _ List.mem_cons_self)
+      rw [List.nodup_cons] at hn
+      exact hn.1 (by rw [ha, ← hb]; exact List.mem_cons_self)
+
+/-- **All state sets agree on a key ⇒ its event is unconflicted**: the state event `e` is in every state set, listed once
+    (by ID), and every supplied event of its slot is `e`. -/
+theorem agreed_is_unconflicted {sets : List (List Event)} (hne : sets ≠ []) (hU : IdsIn sets.flatten) {e : Event}
+    (hk : e.stateKey.isSome) (he : ∀ s ∈ sets, e ∈ s)
+    (hocc : ∀ s ∈ sets, (s.filter (fun x => x.eventID == e.eventID)).length = 1)
+    (hslot : ∀ x ∈ sets.flatten, hasKey (keyOf e) x = true → x = e) :
+    e ∈ (splitConflictedUnconflicted false sets).2 := by
+  rw [unconflicted_iff]
+  have hflat : e ∈ sets.flatten := by
+    cases sets with
+    | nil => exact absurd rfl hne
+    | cons s ss => exact List.mem_flatten.mpr ⟨s, List.mem_cons_self, he s List.mem_cons_self⟩
+  have hd : e ∈ distinctStateEvents sets := by
+    unfold distinctStateEvents
+    exact List.mem_filter.mpr ⟨mem_eventMap_of_mem hU hflat, hk⟩
+  refine ⟨hd, ?_, ?_⟩
+  · apply length_one_of_all_eq ((dse_idNodup sets).nodup.sublist List.filter_sublist)
+    · exact List.mem_filter.mpr ⟨hd, hasKey_keyOf hk⟩
+    · intro x hx
+      obtain ⟨hx1, hx2⟩ := List.mem_filter.mp hx
+      exact hslot x (mem_dse hx1).1 hx2
+  · rw [countID_eq]
+    exact flatten_filter_length _ sets hocc
 
 /-- **Agreed keys are kept.**  For every key on which all state sets agree, the resolved state holds exactly that event in
     that slot (and, slots being distinct, no other event for that key). -/
@@ -196,6 +242,19 @@ theorem stages_perm_invariant (algo : Nat) {sets sets' : List (List Event)} {aut
     SameSet r.control r'.control ∧ SameSet r.others r'.others ∧
     r.controlOrder = r'.controlOrder ∧ r.othersOrder = r'.othersOrder ∧ r.result ~ r'.result :=
   V.StateRes.stages_perm_invariant hin.ids hin.oneCreate algo Input.setsU (fun x hx => List.mem_append_right _ hx) hs ha rejected
+
+/-- **Every run of the process.**  Wherever the Go code ranges over a map the model uses first-insertion order.  Replace the
+    lists the model obtains that way — conflicted events, unconflicted events, auth map, auth difference — by ANY lists with the
+    same contents (`c'`, `d'` the same sets, `u'` a permutation, `am'` answering lookups alike): the resolved state is a
+    permutation of the model's.  (The orderings fed to the iterative auth checks are functions of the sets by section 2; the
+    partial state is read through lookups only.) -/
+theorem internal_order_irrelevant (algo : Nat) {sets : List (List Event)} {auth : List Event} (hin : Input sets auth)
+    (rejected : List ID) {c' u' am' d' : List Event}
+    (hcU' : ∀ x ∈ c', x ∈ sets.flatten ++ auth) (hdU' : ∀ x ∈ d', x ∈ sets.flatten ++ auth)
+    (hc : SameSet (prepOf algo sets auth).conflicted c') (hu : (prepOf algo sets auth).unconflicted ~ u')
+    (ham : MapEq (prepOf algo sets auth).authMap am') (hd : SameSet (prepOf algo sets auth).authDiff d') :
+    stateS4 algo (prepOf algo sets auth) rejected ~ stateS4 algo (mkPrep c' u' am' (prepOf algo sets auth).createEv d') rejected :=
+  finalState_internal_order_irrelevant hin.ids algo Input.setsU (fun _ hx => List.mem_append_right _ hx) rejected hcU' hdU' hc hu ham hd
 
 /-- **C11, main theorem (v2 and v2.1).**  The set of events returned by state resolution is the same for every ordering of
     the state sets, of the events inside each set, of the auth events, and with auth events listed more than once. -/
@@ -385,6 +444,103 @@ theorem resolveConflictsNew_perm_invariant (sha : ID → Bytes) (ver : Bytes) {s
       split
       · exact (resolve_perm_invariant row.stateResAlgorithm hin hs ha rejected).symm
       · trivial
+
+/-! ## 5. The deprecated entry points (`ResolveStateConflictsV2`, `ResolveConflicts`)
+
+  `resolveV2Old conflicted unconflicted auth rejected` takes the split from its caller; `resolveConflictsOld` decides
+  "conflicted" by key multiplicity over the distinct input events (= `splitConflictedUnconflicted true [events]`) and then runs
+  the version-1 resolver or `resolveV2Old`.  Nothing is returned when the auth events lack a create event. -/
+
+theorem old_result_eq_finalStateOld (c u auth : List Event) (rejected : List ID) :
+    resolveV2Old c u auth rejected = (finalStateOld c u auth rejected).map (·.2.eventID) := resolveV2Old_result c u auth rejected
+
+theorem old_result_unique_keys (c u auth : List Event) (rejected : List ID) :
+    let s := finalStateOld c u auth rejected
+    KeysNodup s ∧ (∀ x ∈ s, x.2.type = x.1.1 ∧ x.2.stateKey = some x.1.2) ∧
+    (s.map (·.2)).Pairwise (fun a b => ¬ (a.type = b.type ∧ a.stateKey = b.stateKey)) :=
+  stateWF_facts (finalStateOld_wf c u auth rejected)
+
+theorem old_result_subset_inputs (c u auth : List Event) (rejected : List ID) :
+    ∀ id ∈ resolveV2Old c u auth rejected, ∃ e ∈ c ++ u ++ auth, e.eventID = id := by
+  intro id hid
+  rw [old_result_eq_finalStateOld] at hid
+  obtain ⟨x, hx, rfl⟩ := List.mem_map.mp hid
+  refine ⟨x.2, ?_, rfl⟩
+  simp only [List.mem_append]
+  rcases mem_finalStateOld hx with h | h | h
+  · exact Or.inl (Or.inl h)
+  · exact Or.inl (Or.inr h)
+  · exact Or.inr h
+
+/-- the unconflicted events (distinct slots) are kept, provided the auth events contain a create event -/
+theorem old_result_keeps_unconflicted (c : List Event) {u auth : List Event} (rejected : List ID)
+    (hd : (u.map keyOf).Nodup) (hcr : (getCreateEvent auth).isSome) {e : Event} (he : e ∈ u) (hk : e.stateKey.isSome) :
+    e.eventID ∈ resolveV2Old c u auth rejected := by
+  rw [old_result_eq_finalStateOld]
+  exact List.mem_map.mpr ⟨_, finalStateOld_keeps_unconflicted c rejected (distinctSlots_of_keys hd) hcr he hk, rfl⟩
+
+/-- **`ResolveStateConflictsV2` is order independent**: conflicted events as a set, unconflicted events (distinct slots) in
+    any order, auth events as a set (reordered, repeated). -/
+theorem old_perm_invariant {c c' u u' auth auth' : List Event} (hU : IdsIn (c ++ u ++ auth))
+    (hc : SameSet c c') (hu : u ~ u') (hd : (u.map keyOf).Nodup) (ha : SameSet auth auth') (rejected : List ID) :
+    resolveV2Old c' u' auth' rejected ~ resolveV2Old c u auth rejected := by
+  rw [old_result_eq_finalStateOld, old_result_eq_finalStateOld]
+  refine ((finalStateOld_perm_invariant hU ?_ ?_ ?_ ?_ hc hu (distinctSlots_of_keys hd) ha rejected).map _).symm
+  · intro x hx; simp only [List.mem_append]; exact Or.inl (Or.inl hx)
+  · intro x hx; simp only [List.mem_append]; exact Or.inl (Or.inl ((hc x).mpr hx))
+  · intro x hx; simp only [List.mem_append]; exact Or.inl (Or.inr hx)
+  · intro x hx; simp only [List.mem_append]; exact Or.inr hx
+
+/-- **C11 for the deprecated entry point `ResolveConflicts`**: the same answer for every ordering of the events and every
+    presentation of the auth events, for every room version (algorithm 1 under the version-1 precondition). -/
+theorem resolveConflictsOld_perm_invariant (sha : ID → Bytes) (ver : Bytes) {events events' auth auth' : List Event}
+    (hU : IdsIn (events ++ auth)) (he : events ~ events') (ha : SameSet auth auth')
+    (hv1 : ∀ row, versionRow? ver = some row → row.stateResAlgorithm = 1 → V1Input sha [events] auth) (rejected : List ID) :
+    SameAnswer (resolveConflictsOld sha ver events auth rejected) (resolveConflictsOld sha ver events' auth' rejected) := by
+  cases hv : versionRow? ver with
+  | none => simp [resolveConflictsOld, hv, SameAnswer]
+  | some row =>
+    by_cases h1 : row.stateResAlgorithm = 1
+    · obtain ⟨P1, P2, P3⟩ := hv1 row hv h1
+      rw [resolveConflictsOld_v1 sha ver events auth rejected hv h1, resolveConflictsOld_v1 sha ver events' auth' rejected hv h1]
+      have hU' : IdsIn ([events].flatten ++ auth) := by simpa using hU
+      obtain ⟨l, l', e1, e2, hp⟩ := resolveConflictsNew_v1_perm_invariant sha ver hv h1 hU' rejected rejected
+        Input.setsU (setsEquiv_singleton he) ha P1 P2 P3
+      rw [e1, e2]; exact hp
+    · by_cases h23 : row.stateResAlgorithm = 2 ∨ row.stateResAlgorithm = 3
+      · rw [resolveConflictsOld_v2 sha ver events auth rejected hv h23, resolveConflictsOld_v2 sha ver events' auth' rejected hv h23]
+        exact (finalStateOld_entry_perm_invariant hU (fun x hx => List.mem_append_left _ hx)
+          (fun x hx => List.mem_append_right _ hx) he ha rejected).map _
+      · have hn : ∀ r, versionRow? ver = some r → ¬ (r.stateResAlgorithm = 1 ∨ r.stateResAlgorithm = 2 ∨ r.stateResAlgorithm = 3) := by
+          intro r hr; rw [hv] at hr; cases hr
+          rintro (h | h | h)
+          · exact h1 h
+          · exact h23 (Or.inl h)
+          · exact h23 (Or.inr h)
+        rw [resolveConflictsOld_other sha ver events auth rejected hn, resolveConflictsOld_other sha ver events' auth' rejected hn]
+        trivial
+
+/-- the v2 / v2.1 answer of the deprecated entry point: at most one event per slot, only supplied events, and every key with a
+    single distinct event keeps it (when the auth events contain a create event) -/
+theorem resolveConflictsOld_well_formed (events auth : List Event) (rejected : List ID) :
+    let cu := splitConflictedUnconflicted true [events]
+    let s := finalStateOld cu.1 cu.2 auth rejected
+    KeysNodup s ∧ (∀ x ∈ s, x.2 ∈ events ∨ x.2 ∈ auth) ∧
+    ((getCreateEvent auth).isSome → ∀ e ∈ cu.2, (keyOf e, e) ∈ s) := by
+  intro cu s
+  refine ⟨(finalStateOld_wf _ _ _ _).nodup, ?_, ?_⟩
+  · intro x hx
+    have sub : ∀ {y : Event}, y ∈ cu.1 ∨ y ∈ cu.2 → y ∈ events := by
+      intro y hy
+      have := (split_sub true [events] hy).1
+      simpa using this
+    rcases mem_finalStateOld hx with h | h | h
+    · exact Or.inl (sub (Or.inl h))
+    · exact Or.inl (sub (Or.inr h))
+    · exact Or.inr h
+  · intro hcr e he
+    exact finalStateOld_keeps_unconflicted _ rejected (distinctSlots_of_keys (split_unconflicted_keys true [events])) hcr he
+      (split_sub true [events] (Or.inr he)).2
 
 /-! ## Non-vacuity of the hypotheses: a concrete, non-trivial instance -/
 
